@@ -21,6 +21,7 @@ TECHNIQUE = 'abstract interpretation of list layouts over symbolic sizes, axis t
 DECIDES += (' [ABSTRACT INTERPRETATION, exact] FIT3: compute_knot_vector is Eq. 9.8, compute_knot_vector2 Eqs. 9.68 / 9.69, compute_params_curve Eqs. 9.5 / 9.6 on symbolic chord lengths, compute_params_surface the per-direction mean of the per-line parameters with the centripetal flag forwarded to every line; IS2: interpolate_surface solves one system per v over the data points (u, v), then one per u over the intermediate points, with the data of the right direction, and lays the result out at v + size_v * u; LA3: lu_solve / lu_factor return x with A x = b on symbolic 3 x 3 systems for every pivot permutation; CM2: collocation spans come from a search without tolerance tests; PU1: the solvers and fitters never write into their arguments.')
 DECIDES += (' SC1: no pivot of the factorisation behind the fits is compared with an absolute threshold (also through a local).')
 DECIDES += (' [ABSTRACT INTERPRETATION, exact in the data] AP3: approximate_curve / approximate_surface return the solution of Eqs. 9.63 - 9.67 as exact linear forms of symbolic data points (real linalg code interpreted; basis values two generic rational tables, i.e. a polynomial identity test in them), two passes, layout v + size_v u, direction data reach helpers and result together.')
+DECIDES += (' IC2: interpolate_curve against recorders for 2 .. 6 points and every degree up to n - 1: requested degree, computed parameters / knots / matrix, data points as right-hand side; VN2: chord lengths are sqrt(v . v) for every v.')
 
 
 def site(fi, node=None):
